@@ -204,6 +204,38 @@ def populateDefaults (own : List Field) (fs : List (Bytes × Value)) : List (Byt
     | some d => if acc.any (·.1 == f.name) then acc else acc ++ [(f.name, d)]
     | none => acc) fs
 
+/-- outcome of `readRecord`'s epilogue -/
+inductive RecFin where
+  | ok (v : Value) (missing : List Bytes)
+  | missingErr (paths : List Bytes) (partialValue : Value)
+  | panic
+
+/-- the epilogue of `readRecord` + the generated `populateLocalDefaultValues`, shared by every
+reader: record the required fields that were not seen (unless excluded), fail at the top level if
+anything is missing, otherwise fill the record's own defaults. `fs` are the fields read, `seen`
+the keys the callback was invoked with, `missing₀` what nested records recorded so far. -/
+def remainingRequired (fields : List Field) (seen : List Bytes) : List Bytes :=
+  ((fields.filter (fun f => !f.optOrDefault)).map (·.name)).filter (fun r => !seen.contains r)
+
+/-- `recordMissingRequiredFields`: the missing list after this record (excluded required fields
+are not reported) -/
+def missingAfter (tracker : Tracker) (scope : List Seg) (fields : List Field) (seen : List Bytes)
+    (missing₀ : List Bytes) : List Bytes :=
+  let prefix_ := let sc := scopeString scope; if sc.isEmpty then sc else sc ++ [46]
+  missing₀ ++ ((remainingRequired fields seen).filter
+    (fun r => tracker.check (scope ++ [.key r]) != .yes)).map (prefix_ ++ ·)
+
+def finishPanics (tracker : Tracker) (scope : List Seg) (fields : List Field) (seen : List Bytes) : Bool :=
+  (remainingRequired fields seen).any (fun r => tracker.check (scope ++ [.key r]) == .panic)
+
+def finishRecord (env : Env) (tracker : Tracker) (scope : List Seg) (top : Bool)
+    (fields own : List Field) (fs : List (Bytes × Value)) (seen : List Bytes) (missing₀ : List Bytes) : RecFin :=
+  if finishPanics tracker scope fields seen then .panic
+  else if top && !(missingAfter tracker scope fields seen missing₀).isEmpty then
+    .missingErr (missingAfter tracker scope fields seen missing₀) (.record (fillRequired env fields fs))
+  else .ok (.record (populateDefaults own (fillRequired env fields fs)))
+    (missingAfter tracker scope fields seen missing₀)
+
 mutual
 /-- the generated `UnmarshalRestLi` for a value of type `ty` -/
 def readTy (c : RCfg) : Nat → List Seg → Ty → RS → Res Value
@@ -234,15 +266,10 @@ def readTy (c : RCfg) : Nat → List Seg → Ty → RS → Res Value
         let fields := allFields c.env (includeFuel c.env) n
         (match readMap c fuel scope (.record fields) s with
         | .ok (fs, seen) s' =>
-          let required := (fields.filter (fun f => !f.optOrDefault)).map (·.name)
-          let remaining := required.filter (fun r => !seen.contains r)
-          -- excluded required fields are not reported
-          let reported := remaining.filter (fun r => c.tracker.check (scope ++ [.key r]) != .yes)
-          let prefix_ := let sc := scopeString scope; if sc.isEmpty then sc else sc ++ [46]
-          let s'' := { s' with missing := s'.missing ++ reported.map (prefix_ ++ ·) }
-          if remaining.any (fun r => c.tracker.check (scope ++ [.key r]) == .panic) then .panic
-          else if atStart && !s''.missing.isEmpty then .err (.missing s''.missing (.record fs))
-          else .ok (.record (populateDefaults own fs)) s''
+          (match finishRecord c.env c.tracker scope atStart fields own fs seen s'.missing with
+          | .panic => .panic
+          | .missingErr ps v => .err (.missing ps v)
+          | .ok v m => .ok v { s' with missing := m })
         | .err e => .err e | .panic => .panic | .fuel => .fuel | .unmodelled => .unmodelled)
       | some (.union hasNull members) =>
         (match readMap c fuel scope (.union members) s with
@@ -275,32 +302,7 @@ def readMapLoop (c : RCfg) : Nat → List Seg → MapMode → List (Bytes × Val
         | .yes => .err (.excluded (scopeString scope'))
         | .no =>
           let s1 := s.adv after
-          -- the callback
-          let r : Res (List (Bytes × Value)) :=
-            match mode with
-            | .record fields =>
-              (match findField fields k with
-              | some f =>
-                (match readTy c fuel scope' f.ty s1 with
-                | .ok v s2 => .ok (setEntry acc k v) s2
-                | .err e => .err e | .panic => .panic | .fuel => .fuel | .unmodelled => .unmodelled)
-              | none =>
-                (match skip s1 with
-                | .ok _ s2 => .ok acc s2
-                | .err e => .err e | .panic => .panic | .fuel => .fuel | .unmodelled => .unmodelled))
-            | .mapOf t =>
-              (match readTy c fuel scope' t s1 with
-              | .ok v s2 => .ok (setEntry acc k v) s2
-              | .err e => .err e | .panic => .panic | .fuel => .fuel | .unmodelled => .unmodelled)
-            | .union members =>
-              if !seen.isEmpty then .err .union
-              else match members.lookup k with
-                | some t =>
-                  (match readTy c fuel scope' t s1 with
-                  | .ok v s2 => .ok (setEntry acc k v) s2
-                  | .err e => .err e | .panic => .panic | .fuel => .fuel | .unmodelled => .unmodelled)
-                | none => .ok acc s1       -- unknown alias: nothing is read, no error
-          match r with
+          match readMapCallback c fuel scope' mode acc seen k s1 with
           | .ok acc' s2 =>
             -- `if u.pos >= len(u.data)` (repair), then `switch u.data[u.pos]`
             (match s2.rest with
@@ -310,6 +312,34 @@ def readMapLoop (c : RCfg) : Nat → List Seg → MapMode → List (Bytes × Val
               else if d == 41 then .ok (acc', seen ++ [k]) (s2.adv r2)
               else .err .syntax)
           | .err e => .err e | .panic => .panic | .fuel => .fuel | .unmodelled => .unmodelled
+/-- the callback the generated code passes to `ReadMap`, per kind of map-shaped value -/
+def readMapCallback (c : RCfg) : Nat → List Seg → MapMode → List (Bytes × Value) → List Bytes → Bytes → RS →
+    Res (List (Bytes × Value))
+  | 0, _, _, _, _, _, _ => .fuel
+  | fuel + 1, scope', mode, acc, seen, k, s1 =>
+    match mode with
+    | .record fields =>
+      (match findField fields k with
+      | some f =>
+        (match readTy c fuel scope' f.ty s1 with
+        | .ok v s2 => .ok (setEntry acc k v) s2
+        | .err e => .err e | .panic => .panic | .fuel => .fuel | .unmodelled => .unmodelled)
+      | none =>
+        (match skip s1 with
+        | .ok _ s2 => .ok acc s2
+        | .err e => .err e | .panic => .panic | .fuel => .fuel | .unmodelled => .unmodelled))
+    | .mapOf t =>
+      (match readTy c fuel scope' t s1 with
+      | .ok v s2 => .ok (setEntry acc k v) s2
+      | .err e => .err e | .panic => .panic | .fuel => .fuel | .unmodelled => .unmodelled)
+    | .union members =>
+      if !seen.isEmpty then .err .union
+      else match members.lookup k with
+        | some t =>
+          (match readTy c fuel scope' t s1 with
+          | .ok v s2 => .ok (setEntry acc k v) s2
+          | .err e => .err e | .panic => .panic | .fuel => .fuel | .unmodelled => .unmodelled)
+        | none => .err .union      -- `default:` of the generated switch: unknown member
 /-- `ReadArray` with the generated element reader -/
 def readArray (c : RCfg) : Nat → List Seg → Ty → RS → Res Value
   | 0, _, _, _ => .fuel
@@ -354,6 +384,6 @@ def validateRor2 (data : Bytes) : Bool :=
 /-- `NewRor2ReaderWithExcludedFields(data, spec, ignore)` + generated `UnmarshalRestLi` -/
 def unmarshalRor2 (c : RCfg) (ty : Ty) (data : Bytes) : Res Value :=
   if !validateRor2 data then .err .syntax
-  else readTy c (data.length + 2) [] ty { rest := data, start := true }
+  else readTy c (2 * data.length + 8) [] ty { rest := data, start := true }
 
 end Restli.Codec
